@@ -72,10 +72,15 @@ def durOfSeconds (u : UInt32) : Int := wrap64 ((u.toNat : Int) * second)
 /-- defaultMaxCacheTtl = time.Hour * 6 -/
 abbrev defaultMaxCacheTtl : Int := 6 * 3600 * second
 
-/-- initCache: `c.maximumTtl = time.Duration(cfg.MaximumTTL) * time.Second; if c.maximumTtl <= 0 { default }` -/
+/-- maxCacheTtlLimit = time.Hour * 24 * 365 * 10 (otter's uint32 second clock must not wrap) -/
+abbrev maxCacheTtlLimit : Int := 24 * 365 * 10 * 3600 * second
+
+/-- initCache: `c.maximumTtl = time.Duration(cfg.MaximumTTL) * time.Second; if c.maximumTtl <= 0 { default };
+    if c.maximumTtl > maxCacheTtlLimit { c.maximumTtl = maxCacheTtlLimit }` -/
 def initMaxTtl (cfgMaximumTTL : Int) : Int :=
   let d := wrap64 (cfgMaximumTTL * second)
-  if d ≤ 0 then defaultMaxCacheTtl else d
+  let d := if d ≤ 0 then defaultMaxCacheTtl else d
+  if d > maxCacheTtlLimit then maxCacheTtlLimit else d
 
 /-! ### cacheCtl.Store -/
 
@@ -141,12 +146,15 @@ abbrev u32 : Nat := 4294967296
 /-- otter getTTL: `uint32((ttl + time.Second - 1) / time.Second)` (Go's `/` truncates toward zero) -/
 def otterTtlTicks (ttl : Int) : Nat := (((ttl + second - 1).tdiv second) % (u32 : Int)).toNat
 
-/-- otter Cache.set followed by hashmap.Set / hashmap.SetIfAbsent; `nowTick` = unixtime.Now() -/
+/-- MemoryCache.Store on otter: `Set` replaces; for `setNX` the value goes in with `SetIfAbsent`, and when that
+    is refused because of a node that `backend.Get` does not report alive (an expired leftover: otter keeps
+    expired nodes in its hash map) the leftover is deleted and `SetIfAbsent` is tried again. So a set-if-absent
+    store is refused exactly by a live node. `nowTick` = unixtime.Now(). -/
 def otterSet (mem : Mem) (nowTick : Nat) (k : Nat) (e : Entry) (ttl : Int) (onlyIfAbsent : Bool) : Mem :=
   let e := { e with expTick := (nowTick + otterTtlTicks ttl) % u32 }   -- getExpiration, uint32 addition
   if onlyIfAbsent then
     match mem k with
-    | some _ => mem                -- found node, drop set (whether or not that node has expired)
+    | some old => if old.expTick ≤ nowTick then mem.set k e else mem   -- expired leftover: removed, stored
     | none => mem.set k e
   else mem.set k e
 
@@ -190,8 +198,8 @@ inductive Upstream where
   | reply (m : Msg)
   deriving Repr
 
-/-- dnsmsg.PopEDNS0/RemoveEDNS0: the last OPT of the additional section is replaced by the last record and
-    the section is shortened by one. -/
+/-- dnsmsg.PopEDNS0 (handleReqMsg, for a client without EDNS0): the last OPT of the additional section is replaced
+    by the last record and the section is shortened by one. -/
 def popOPT : List RR → List RR
   | [] => []
   | rr :: rest =>
@@ -202,7 +210,13 @@ def popOPT : List RR → List RR
       | some l => l :: rest.dropLast
     else rr :: rest
 
-def removeEDNS0 (m : Msg) : Msg := { m with add := popOPT m.add }
+def popEDNS0 (m : Msg) : Msg := { m with add := popOPT m.add }
+
+/-- dnsmsg.removeOpt: every OPT record goes, the order of the others is kept -/
+def removeOpt (l : List RR) : List RR := l.filter (fun rr => !(rr.typ == typeOPT))
+
+/-- dnsmsg.RemoveEDNS0 (router.forward, on every upstream reply): all three sections -/
+def removeEDNS0 (m : Msg) : Msg := { m with ans := removeOpt m.ans, auth := removeOpt m.auth, add := removeOpt m.add }
 
 inductive QObs where
   | cached (from_ : Nat) (m : Msg)          -- answered from the cache
@@ -215,7 +229,7 @@ def handleQuery (clock : Nat → Nat) (cfg : Cfg) (mem : Mem) (k : Nat) (up : Up
   match cacheGet clock mem k now with
   | some (served, e) =>
     -- handleReqMsg: the client (the harness' client sends no OPT) gets the response without EDNS0
-    (mem, .cached e.id (removeEDNS0 served))
+    (mem, .cached e.id (popEDNS0 served))
   | none =>
     match up with
     | .err => (mem, .failed)                                   -- `if err != nil { …; return }` before Store
@@ -380,13 +394,31 @@ def evMsg (evs : List Ev) (j : Nat) : Option (Ev × Msg) :=
 /-- harness events start at their planned time or up to this much later -/
 def tolMs : Nat := 120
 
-/-- a positive (rcode 0, not truncated) Store of `key` among the first `n` events that is certainly still alive
-    at `tMs` (its lifetime minus the cache clock's one-second granularity has not run out) -/
+/-- is this event a positive (rcode 0, not truncated) Store of `key`? Such a Store always puts its response into
+    the cache, replacing what is there. -/
+def posStore (ev : Ev) (key : Nat) : Bool :=
+  ev.kind == 0 && ev.key == key &&
+  match ev.up with
+  | .reply m => m.rcode == 0 && !m.tc
+  | .err => false
+
+/-- the last positive Store of `key` in a list of events -/
+def lastPos (l : List Ev) (key : Nat) : Option Ev :=
+  l.foldl (fun acc e => if posStore e key then some e else acc) none
+
+/-- no cache has to keep anything longer than this many seconds (ten years) -/
+def tenYears : Nat := 315360000
+
+/-- the positive entry of `key` as of the first `n` events — the response of the last positive Store — is
+    certainly still alive at `tMs`: its lifetime minus the cache clock's one-second granularity has not run out.
+    (Nothing can have replaced it but an error response: another positive Store would be the last one, and a
+    client query is answered from it as long as it lives.) -/
 def livePositiveBefore (cfgMax : Int) (evs : List Ev) (n key tMs : Nat) : Bool :=
-  (evs.take n).any fun e =>
-    e.kind == 0 && e.key == key &&
+  match lastPos (evs.take n) key with
+  | none => false
+  | some e =>
     match e.up with
-    | .reply m => m.rcode == 0 && !m.tc && decide (tMs + tolMs + 1000 < e.t + specLifetime m cfgMax * 1000)
+    | .reply m => decide (tMs + tolMs + 1000 < e.t + Nat.min (specLifetime m cfgMax) tenYears * 1000)
     | .err => false
 
 /-- checks on one cache hit observed by event `i` (at `tMs`, key `key`): it comes from event `from_` -/
@@ -418,6 +450,11 @@ def specHistFrom (cfgMax : Int) (evs : List Ev) (i : Nat) : List Ev → List Obs
   | _, _ => false
 
 def specHist (cfgMax : Int) (evs : List Ev) (obs : List Obs) : Bool := specHistFrom cfgMax evs 1 evs obs
+
+/-- histories are shorter than this (ms, about 31 years): the cache clock does not wrap -/
+def histLimitMs : Nat := 1000000000000
+
+def shortEvs (l : List Ev) : Bool := l.all (fun e => decide (e.t ≤ histLimitMs))
 
 /-- the events of a history are listed in the order of their planned times -/
 def sortedEvs : List Ev → Bool
@@ -585,7 +622,7 @@ def obsOfStrs : List Ev → List String → Option (List Obs)
 def runHist (toks : List String) (impl : String) : String × String :=
   match (kvGet toks "max").bind intOfStr, (kvGet toks "ev").bind (fun s => (s.splitOn ";").mapM evOfStr) with
   | some mx, some evs =>
-    if !sortedEvs evs then ("bad-case", "na")
+    if !sortedEvs evs || !shortEvs evs then ("bad-case", "na")
     else if impl == "skip" then ("skip", "na")            -- the harness could not keep the planned timing
     else
       let out := strOfObsList (modelHist mx evs)
